@@ -66,6 +66,30 @@ structure HornFrag (prog : List Term) (query : Term) : Prop where
   wf : wfT query = true
   small : SLD.maxVar query + 10 ≤ 1000000
 
+/-- `call(G)` -/
+def isCall1 : Term → Bool
+  | .app "call" (.cons _ .nil) => true
+  | _ => false
+
+/-- a goal `arrive` sees (not the cut): a Horn goal, or — in the fragments with control constructs
+    (`s = true`) — `call/1` -/
+def stepGoal (s : Bool) (t : Term) : Bool := hornGoal t || (s && isCall1 t)
+
+/-- a goal of the fragment: the cut or a `stepGoal` -/
+def goalS (s : Bool) (t : Term) : Bool := t == .atom "!" || stepGoal s t
+
+def bodyS (s : Bool) (b : Term) : Bool := (SLD.conjuncts b).all (goalS s)
+
+def clauseS (s : Bool) (c : Term) : Bool :=
+  wfT c && hornHead (SLD.headBody c).1 && bodyS s (SLD.headBody c).2
+
+structure FragS (s : Bool) (prog : List Term) (query : Term) : Prop where
+  clauses : ∀ c ∈ prog, clauseS s c = true
+  goal : bodyS s query = true
+  wf : wfT query = true
+  nonvar : ∀ v, query ≠ .var v
+  small : SLD.maxVar query + 10 ≤ 1000000
+
 /-- a goal of the stage-2 fragment: a Horn goal or the cut -/
 def cutGoal (t : Term) : Bool := t == .atom "!" || hornGoal t
 
@@ -82,6 +106,20 @@ structure CutFrag (prog : List Term) (query : Term) : Prop where
   goal : bodyOK query = true
   wf : wfT query = true
   small : SLD.maxVar query + 10 ≤ 1000000
+
+theorem goalS_false (t : Term) : goalS false t = cutGoal t := by simp [goalS, stepGoal, cutGoal]
+theorem bodyS_false (b : Term) : bodyS false b = bodyOK b := by
+  simp only [bodyS, bodyOK]; congr 1; funext t; exact goalS_false t
+theorem clauseS_false (c : Term) : clauseS false c = clauseOK c := by simp [clauseS, clauseOK, bodyS_false]
+/-- **the fragment (stage 3a)**: stage 2 + `call/1` (also as a variable in goal position) -/
+abbrev CallFrag (prog : List Term) (query : Term) : Prop := FragS true prog query
+
+theorem goalS_mono {t : Term} (h : goalS false t = true) (s : Bool) : goalS s t = true := by
+  simp only [goalS, stepGoal, Bool.or_eq_true, Bool.and_eq_true, Bool.false_and, Bool.false_eq_true,
+    or_false] at h ⊢
+  rcases h with h | h
+  · exact Or.inl h
+  · exact Or.inr (Or.inl h)
 
 theorem cutGoal_of_horn {t : Term} (h : hornGoal t = true) : cutGoal t = true := by
   simp [cutGoal, h]
@@ -261,8 +299,51 @@ theorem cutGoal_cases {g : Term} (h : cutGoal g = true) : g = .atom "!" ∨ horn
   simp only [cutGoal, Bool.or_eq_true, beq_iff_eq] at h
   exact h
 
+theorem goalS_cases {s : Bool} {g : Term} (h : goalS s g = true) : g = .atom "!" ∨ stepGoal s g = true := by
+  simp only [goalS, Bool.or_eq_true, beq_iff_eq] at h
+  exact h
+
+theorem bodyOK_not_var {b : Term} (h : bodyOK b = true) : ∀ v, b ≠ .var v := by
+  rintro v rfl
+  simp only [bodyOK, SLD.conjuncts, SLD.wrapVar, SLD.call1, List.all_cons, List.all_nil, Bool.and_true] at h
+  rcases cutGoal_cases h with h | h
+  · cases h
+  rcases hornGoal_shape h with ⟨f, hf, _⟩ | ⟨a, b, hab⟩ | ⟨f, as, hfa, hu, _⟩
+  · cases hf
+  · simp at hab
+  · simp only [Term.app.injEq] at hfa
+    obtain ⟨rfl, rfl⟩ := hfa
+    exact reserved_not_user hu (by decide)
+
+theorem FragS.of_cut {prog : List Term} {query : Term} (h : CutFrag prog query) : FragS false prog query :=
+  ⟨fun c hc => by rw [clauseS_false]; exact h.clauses c hc, by rw [bodyS_false]; exact h.goal, h.wf, bodyOK_not_var h.goal, h.small⟩
+
+theorem FragS.mono {prog : List Term} {query : Term} (h : FragS false prog query) (s : Bool) : FragS s prog query := by
+  have hb : ∀ b, bodyS false b = true → bodyS s b = true := by
+    intro b hb
+    simp only [bodyS, List.all_eq_true] at hb ⊢
+    exact fun t ht => goalS_mono (hb t ht) s
+  refine ⟨fun c hc => ?_, hb _ h.goal, h.wf, h.nonvar, h.small⟩
+  have := h.clauses c hc
+  simp only [clauseS, Bool.and_eq_true] at this ⊢
+  exact ⟨this.1, hb _ this.2⟩
+
+theorem isCall1_shape {g : Term} (h : isCall1 g = true) : ∃ x, g = .app "call" (.cons x .nil) := by
+  unfold isCall1 at h
+  split at h
+  · rename_i x; exact ⟨x, rfl⟩
+  · cases h
+
+/-- a `stepGoal`: a Horn goal or (with control constructs) `call(x)` -/
+theorem stepGoal_cases {s : Bool} {g : Term} (h : stepGoal s g = true) :
+    hornGoal g = true ∨ (s = true ∧ ∃ x, g = .app "call" (.cons x .nil)) := by
+  simp only [stepGoal, Bool.or_eq_true, Bool.and_eq_true] at h
+  rcases h with h | ⟨h1, h2⟩
+  · exact Or.inl h
+  · exact Or.inr ⟨h1, isCall1_shape h2⟩
+
 /-- a body of the fragment is not a disjunction: the compiler sees ONE alternative -/
-theorem altBodies_toRep (b : Term) (h : bodyOK b = true) : altBodies (toRep b) = [toRep b] := by
+theorem altBodies_toRep {s : Bool} (b : Term) (h : bodyS s b = true) : altBodies (toRep b) = [toRep b] := by
   cases b with
   | app f as =>
     by_cases hf : f = "."
@@ -287,9 +368,12 @@ theorem altBodies_toRep (b : Term) (h : bodyOK b = true) : altBodies (toRep b) =
             | nil =>
               have : SLD.conjuncts (.app ";" (.cons x (.cons y .nil))) = [.app ";" (.cons x (.cons y .nil))] := by
                 simp [SLD.conjuncts, SLD.wrapVar]
-              simp only [bodyOK, this, List.all_cons, List.all_nil, Bool.and_true] at h
-              rcases cutGoal_cases h with h | h
+              simp only [bodyS, this, List.all_cons, List.all_nil, Bool.and_true] at h
+              rcases goalS_cases h with h | h
               · cases h
+              rcases stepGoal_cases h with h | ⟨_, x, hx⟩
+              rotate_left
+              · simp at hx
               rcases hornGoal_shape h with ⟨f, hf', _⟩ | ⟨a, b, hab⟩ | ⟨f, as, hfa, hu, _⟩
               · cases hf'
               · simp at hab
@@ -351,17 +435,17 @@ theorem seqGoals_leaves (b : Term) : ∃ ts : List Term, seqGoals (toRep b) = ts
     exact ⟨[t], seqGoals_leaf _ (toRep_not_comma t (fun a b h => hne a b h)), rfl⟩
 
 /-- every goal of a body of the fragment is callable, and is the cut or a Horn goal -/
-theorem bodyOK_goals (b : Term) (h : bodyOK b = true) :
-    ∀ g ∈ seqGoals (toRep b), CallableGoal g = true ∧ (g = .atom "!" ∨ hornGoal (goalTerm g) = true) := by
+theorem bodyOK_goals {s : Bool} (b : Term) (h : bodyS s b = true) :
+    ∀ g ∈ seqGoals (toRep b), CallableGoal g = true ∧ (g = .atom "!" ∨ stepGoal s (goalTerm g) = true) := by
   intro g hg
   obtain ⟨ts, hts, hconj⟩ := seqGoals_leaves b
   rw [hts, List.mem_map] at hg
   obtain ⟨t, ht, rfl⟩ := hg
-  have hh : cutGoal (SLD.wrapVar t) = true := by
-    simp only [bodyOK, List.all_eq_true, hconj] at h
+  have hh : goalS s (SLD.wrapVar t) = true := by
+    simp only [bodyS, List.all_eq_true, hconj] at h
     exact h _ (List.mem_map_of_mem ht)
   rw [goalTerm_toRep]
-  rcases cutGoal_cases hh with hc | hc
+  rcases goalS_cases hh with hc | hc
   · have ht' : t = .atom "!" := by
       cases t <;> simp_all [SLD.wrapVar, SLD.call1]
     subst ht'
@@ -374,9 +458,9 @@ theorem bodyOK_goals (b : Term) (h : bodyOK b = true) :
       rw [toRep]; unfold mkApp; split
       · split <;> simp [CallableGoal]
       · simp [CallableGoal]
-    | int _ => simp [SLD.wrapVar, hornGoal] at hc
-    | flt _ => simp [SLD.wrapVar, hornGoal] at hc
-    | str _ => simp [SLD.wrapVar, hornGoal] at hc
+    | int _ => simp [SLD.wrapVar, hornGoal, stepGoal, isCall1] at hc
+    | flt _ => simp [SLD.wrapVar, hornGoal, stepGoal, isCall1] at hc
+    | str _ => simp [SLD.wrapVar, hornGoal, stepGoal, isCall1] at hc
 
 /-- the shape of the compiled form of a clause of the fragment -/
 structure HeadLayout (h : Term) (cl : Clause) (hargs : RepList) : Prop where
@@ -411,13 +495,13 @@ theorem hornHead_toRep {h : Term} (hh : hornHead h = true) (hw : wfT h = true) :
 
 /-- **a rule of the fragment** compiles to one clause: head code, `enter`, the code of the body
     goals — which are the reference's conjuncts of the body — in order, `exit` -/
-theorem horn_rule_layout (h b : Term) (hc : clauseOK (.app ":-" (.cons h (.cons b .nil))) = true) :
+theorem horn_rule_layout {s : Bool} (h b : Term) (hc : clauseS s (.app ":-" (.cons h (.cons b .nil))) = true) :
     ∃ cl hargs bops gs, compile (toRep (.app ":-" (.cons h (.cons b .nil)))) = .ok [cl] ∧
       HeadLayout h cl hargs ∧
       cl.code = headCode hargs {} ++ Op.enter :: (bops ++ [Op.exit]) ∧
       BodySem cl.vars bops gs ∧ gs.map goalTerm = SLD.conjuncts b ∧
-      (∀ g ∈ gs, g = .atom "!" ∨ hornGoal (goalTerm g) = true) := by
-  simp only [clauseOK, SLD.headBody, Bool.and_eq_true, wfT, wfAs, Bool.and_true] at hc
+      (∀ g ∈ gs, g = .atom "!" ∨ stepGoal s (goalTerm g) = true) := by
+  simp only [clauseS, SLD.headBody, Bool.and_eq_true, wfT, wfAs, Bool.and_true] at hc
   obtain ⟨⟨⟨hwh, hwb⟩, hh⟩, hb⟩ := hc
   obtain ⟨hch, hwfh, hname, hargs, huser, _⟩ := hornHead_toRep hh hwh
   have hwfb := toRep_wf b hwb
@@ -447,7 +531,7 @@ theorem horn_rule_layout (h b : Term) (hc : clauseOK (.app ":-" (.cons h (.cons 
       exact (bodyOK_goals b hb g hg).2
 
 /-- **a fact of the fragment** compiles to one clause: head code, `exit` -/
-theorem horn_fact_layout (c : Term) (hc : clauseOK c = true)
+theorem horn_fact_layout {s : Bool} (c : Term) (hc : clauseS s c = true)
     (hne : ∀ h b, c ≠ .app ":-" (.cons h (.cons b .nil))) :
     ∃ cl hargs, compile (toRep c) = .ok [cl] ∧ HeadLayout c cl hargs ∧
       cl.code = headCode hargs {} ++ [Op.exit] := by
@@ -456,7 +540,7 @@ theorem horn_fact_layout (c : Term) (hc : clauseOK c = true)
     split
     · exact absurd rfl (hne _ _)
     · rfl
-  simp only [clauseOK, hhb, Bool.and_eq_true] at hc
+  simp only [clauseS, hhb, Bool.and_eq_true] at hc
   obtain ⟨⟨hw, hh⟩, _⟩ := hc
   obtain ⟨hch, hwf, hname, hargs, huser, hne'⟩ := hornHead_toRep hh hw
   cases hcomp : compile (toRep c) with
